@@ -10,6 +10,7 @@ import (
 	"testing"
 	"time"
 
+	"github.com/megaease/easegress/pkg/filters/proxy"
 	"verif/simkit/hdrv"
 	"verif/simkit/sim"
 )
@@ -42,6 +43,7 @@ func hcGenExchange(rng *sim.Rand, prop string, sc *hcScenario) hcExchange {
 		for _, t := range []string{"X-Hop1", "x-hop2", "keep-alive"} {
 			if rng.Bool(0.5) {
 				ex.ConnTokens = append(ex.ConnTokens, t)
+				ex.ConnSplit = rng.Bool(0.4)
 				if t != "keep-alive" && rng.Bool(0.8) {
 					ex.Hdr = append(ex.Hdr, [2]string{t, "hopval"})
 				}
@@ -109,7 +111,9 @@ func hcTameNet(sc *hcScenario) {
 func hcGenC03(rng *sim.Rand, tier string) interface{} {
 	sc := &hcScenario{Prop: "C03", Compress: -1}
 	sc.ByHost = rng.Bool(0.5)
+	sc.ServerForm = rng.PickStr("", "", "", "ip4", "host", "ip6", "ip6noport", "hostnoport")
 	sc.KeepHost = rng.Bool(0.4)
+	sc.MemCache = rng.Bool(0.2)
 	if rng.Bool(0.4) {
 		sc.Compress = rng.Pick(0, 1, 100, 1000, 100000)
 	}
@@ -132,6 +136,15 @@ func hcGenC03(rng *sim.Rand, tier string) interface{} {
 		var cl hcClient
 		for e, n := 0, rng.Range(1, 4); e < n; e++ {
 			ex := hcGenExchange(rng, "C03", sc)
+			if sc.MemCache {
+				// cache hits need repeated (method, path) keys with cacheable answers
+				ex.Method = rng.PickStr("GET", "GET", "POST")
+				ex.Path = rng.PickStr("/a", "/a/b")
+				ex.Status = rng.Pick(200, 200, 201, 404)
+				if ex.Method == "GET" {
+					ex.BodyLen = 0
+				}
+			}
 			if sc.ProxyMax == -1 && rng.Bool(0.1) && ex.RBodyLen > 100 {
 				ex.RReset = true
 				ex.RChunked = false
@@ -213,6 +226,7 @@ func hcExec(r *sim.Run, sci interface{}) {
 	r.MultiClass = true
 	c, err := hcNewChain(r, sc)
 	if err != nil {
+		proxy.HCRelease()
 		r.Violate(sc.Prop+".setup", "%v", err)
 		return
 	}
@@ -276,8 +290,8 @@ func hcShort(b []byte) string {
 
 func (c *hcChain) describe(ex *hcExchange) string {
 	sc := c.sc
-	return fmt.Sprintf("[cfg byHost=%v keepHost=%v compress=%d respAdaptor=%q reqAdaptor=%q srvMax=%d pathMax=%d poolMax=%d proxyMax=%d] [req %s %s?%s body=%d chunked=%v ae=%q conn=%v hdr=%v] [backend status=%d body=%d chunked=%v gzip=%v short=%d reset=%v hdr=%v]",
-		sc.ByHost, sc.KeepHost, sc.Compress, sc.RespAdaptor, sc.ReqAdaptor, sc.SrvMax, sc.PathMax, sc.PoolMax, sc.ProxyMax,
+	return fmt.Sprintf("[cfg server=%s memCache=%v byHost=%v keepHost=%v compress=%d respAdaptor=%q reqAdaptor=%q srvMax=%d pathMax=%d poolMax=%d proxyMax=%d] [req %s %s?%s body=%d chunked=%v ae=%q conn=%v hdr=%v] [backend status=%d body=%d chunked=%v gzip=%v short=%d reset=%v hdr=%v]",
+		c.backAddr, sc.MemCache, sc.ByHost, sc.KeepHost, sc.Compress, sc.RespAdaptor, sc.ReqAdaptor, sc.SrvMax, sc.PathMax, sc.PoolMax, sc.ProxyMax,
 		ex.Method, ex.Path, ex.Query, ex.BodyLen, ex.Chunked, ex.AcceptEnc, ex.ConnTokens, ex.Hdr,
 		ex.Status, ex.RBodyLen, ex.RChunked, ex.RGzip, ex.RShort, ex.RReset, ex.RHdr)
 }
@@ -333,6 +347,47 @@ func (c *hcChain) checkC03(id string, ex *hcExchange, res *hcResp) {
 		return
 	}
 	// ---- request side
+	if (seen == nil || seen.count == 0) && c.sc.MemCache && (ex.Method == "GET" || ex.Method == "POST") {
+		// served from the pool's memory cache: the response must be the one an
+		// earlier exchange with the same cache key got from the backend
+		ok := false
+		got, derr := hcDecode(res.body, res.hdr)
+		for oid, o := range c.script {
+			if oid == id || o.Method != ex.Method || o.Path != ex.Path || o.RShort > 0 || o.RReset {
+				continue
+			}
+			if os := c.seen[oid]; os == nil || os.count == 0 {
+				continue
+			}
+			want := hcBody("r"+oid, o.RBodyLen, o.RInc)
+			if c.sc.RespAdaptor == "body" {
+				want = []byte("<replaced-by-adaptor>")
+			}
+			if derr == nil && res.status == o.Status && bytes.Equal(got, want) {
+				ok = true
+				for _, kv := range o.RHdr {
+					found := false
+					for _, v := range res.hdr.Values(kv[0]) {
+						if v == kv[1] {
+							found = true
+						}
+					}
+					if !found {
+						ok = false
+					}
+				}
+				if ok {
+					break
+				}
+			}
+		}
+		r.Probe("c03.served_from_memory_cache")
+		if !ok {
+			r.Violate("C03.cache.response-not-a-backend-response/"+c.facts(ex), "%s: not forwarded (memory cache) and the response (status %d, Content-Encoding %q, %s, decode err %v) is not what any earlier exchange with the same key got from the backend\n%s",
+				id, res.status, res.hdr.Values("Content-Encoding"), hcShort(res.body), derr, desc)
+		}
+		return
+	}
 	if seen == nil || seen.count == 0 {
 		r.Violate("C03.req.not-forwarded/"+c.facts(ex), "%s: backend never saw the request; client got %d\n%s", id, res.status, desc)
 		return
@@ -399,7 +454,7 @@ func (c *hcChain) checkC03(id string, ex *hcExchange, res *hcResp) {
 		r.Violate("C03.req.header-lost", "%s: Accept-Encoding: backend saw %q want %q\n%s", id, seen.hdr.Values("Accept-Encoding"), ex.AcceptEnc, desc)
 	}
 	wantHost := "front.example:10080"
-	if c.sc.ByHost && !c.sc.KeepHost {
+	if c.byName && !c.sc.KeepHost {
 		wantHost = c.backAddr
 	}
 	if seen.host != wantHost {
@@ -513,7 +568,12 @@ func (c *hcChain) checkC07(id string, ex *hcExchange, res *hcResp) {
 	want := hcBody("r"+id, ex.RBodyLen, ex.RInc)
 	if ex.RShort > 0 {
 		r.Probe("c07.backend_short_body")
-		if res.status/100 == 2 && res.complete && res.ioErr == nil {
+		if respLim >= 0 && res.status/100 == 2 {
+			// buffered mode: the proxy has the whole body before it answers, so a
+			// short body must become an error status ("rather than a truncated success")
+			r.Violate("C07.resp.short-body-success-status", "%s: backend declared %d bytes, sent %d and closed; client got status %d (%d body bytes, complete=%v, err %v) instead of an error status\n%s",
+				id, ex.RBodyLen, ex.RBodyLen-ex.RShort, res.status, len(res.body), res.complete, res.ioErr, desc)
+		} else if res.status/100 == 2 && res.complete && res.ioErr == nil {
 			r.Violate("C07.resp.truncated-success", "%s: backend declared %d bytes, sent %d and closed; client got a complete-looking %d with %d bytes\n%s",
 				id, ex.RBodyLen, ex.RBodyLen-ex.RShort, res.status, len(res.body), desc)
 		}
